@@ -377,3 +377,7 @@ def run(chk, repo):
     for name in ('variant', 'fusion', 'circRNA'):
         chk.ob('C07.d', f"tally log reports n_transcripts_failed['{name}']", tl.where, f"self.n_transcripts_failed['{name}']" in txt,
                f"TallyTable.log does not report the '{name}' failures", key=f"{tl.qual}::{name}", fn=tl.qual)
+
+    # ---- e (shared with C06.a): a skipped / invalid transcript must not leave the pending batch undispatched
+    from rules.C06 import rule_drain
+    rule_drain(chk, repo, 'C07.e')
